@@ -37,6 +37,54 @@ struct Captured {
     check: bool, // carries ICE-CONTROLLING / ICE-CONTROLLED (a connectivity check, not a keepalive)
 }
 
+/// A harness endpoint: a UDP socket, or (ICE-TCP) a connection to the agent's passive candidate
+/// carrying RFC 4571 frames.
+enum Sock {
+    Udp(UdpSocket),
+    Tcp(tokio::net::TcpStream, Vec<u8>),
+}
+
+impl Sock {
+    async fn send(&mut self, bytes: &[u8], to: SocketAddr) -> Result<(), String> {
+        match self {
+            Sock::Udp(s) => s.send_to(bytes, to).await.map(|_| ()).map_err(|e| e.to_string()),
+            Sock::Tcp(s, _) => {
+                use tokio::io::AsyncWriteExt;
+                let mut f = (bytes.len() as u16).to_be_bytes().to_vec();
+                f.extend_from_slice(bytes);
+                s.write_all(&f).await.map_err(|e| e.to_string())
+            }
+        }
+    }
+    /// next queued datagram / frame, if any (never waits)
+    fn try_next(&mut self) -> Option<Vec<u8>> {
+        match self {
+            Sock::Udp(s) => {
+                let mut buf = [0u8; 2048];
+                s.try_recv_from(&mut buf).ok().map(|(n, _)| buf[..n].to_vec())
+            }
+            Sock::Tcp(s, acc) => {
+                let mut buf = [0u8; 4096];
+                while let Ok(n) = s.try_read(&mut buf) {
+                    if n == 0 {
+                        break;
+                    }
+                    acc.extend_from_slice(&buf[..n]);
+                }
+                if acc.len() >= 2 {
+                    let l = u16::from_be_bytes([acc[0], acc[1]]) as usize;
+                    if acc.len() >= 2 + l {
+                        let f = acc[2..2 + l].to_vec();
+                        acc.drain(..2 + l);
+                        return Some(f);
+                    }
+                }
+                None
+            }
+        }
+    }
+}
+
 struct World {
     agent: IceTransport,
     runner: tokio::task::JoinHandle<()>,
@@ -44,11 +92,16 @@ struct World {
     ufrag: String,
     pwd: String,
     role: IceRole,
-    socks: HashMap<&'static str, UdpSocket>,
+    socks: HashMap<&'static str, Sock>,
+    tcp: bool,
     addrs: HashMap<&'static str, SocketAddr>,
     seen: HashMap<[u8; 12], Captured>,
     rng: Rng,
     n_sent: u64,
+    /// C16 at system level: every STUN message the agent puts on the wire is checked with the
+    /// reference crate (counted; problems kept)
+    wire_checked: u64,
+    wire_problems: Vec<Value>,
 }
 
 fn st_name(s: IceTransportState) -> String {
@@ -66,12 +119,16 @@ impl World {
         c.enable_ice_lite = cfg["lite"].as_bool().unwrap_or(false);
         c.enable_upnp = false;
         // real-time limits far away from the duration of one replay: nothing in a verdict depends on them
-        c.stun_timeout = Duration::from_secs(120);
-        c.nomination_timeout = Duration::from_secs(240);
+        c.stun_timeout = Duration::from_secs(3000);
+        c.nomination_timeout = Duration::from_secs(3300);
         c.ice_disconnect_threshold = Duration::from_secs(3000);
         c.ice_connection_timeout = Duration::from_secs(3600);
         match cfg["sock"].as_str().unwrap() {
             "udp" => {}
+            "tcp" => {
+                // gathers a passive TCP host candidate next to the UDP one
+                c.ice_tcp_policy = rustrtc::config::IceTcpPolicy::Enabled;
+            }
             "mux" => {
                 // process-wide shared socket (single-port multiplexing): a free port of our own
                 let probe = std::net::UdpSocket::bind("127.0.0.1:0").map_err(|e| e.to_string())?;
@@ -94,19 +151,27 @@ impl World {
                 return Err("gathering did not complete".into());
             }
         }
+        let tcp = cfg["sock"] == "tcp";
         let locals = agent.local_candidates();
         let host = locals
             .iter()
-            .find(|c| c.transport == "udp")
-            .ok_or_else(|| format!("no udp host candidate: {locals:?}"))?;
+            .find(|c| c.transport == if tcp { "tcp" } else { "udp" })
+            .ok_or_else(|| format!("no suitable host candidate: {locals:?}"))?;
         let agent_addr = host.base_address();
         let lp = agent.local_parameters();
         let mut socks = HashMap::new();
         let mut addrs = HashMap::new();
         for n in ["P", "X"] {
-            let s = UdpSocket::bind("127.0.0.1:0").await.map_err(|e| e.to_string())?;
-            addrs.insert(n, s.local_addr().unwrap());
-            socks.insert(n, s);
+            if tcp {
+                let s = tokio::net::TcpStream::connect(agent_addr).await.map_err(|e| e.to_string())?;
+                s.set_nodelay(true).ok();
+                addrs.insert(n, s.local_addr().unwrap());
+                socks.insert(n, Sock::Tcp(s, Vec::new()));
+            } else {
+                let s = UdpSocket::bind("127.0.0.1:0").await.map_err(|e| e.to_string())?;
+                addrs.insert(n, s.local_addr().unwrap());
+                socks.insert(n, Sock::Udp(s));
+            }
         }
         Ok(World {
             agent,
@@ -116,10 +181,13 @@ impl World {
             pwd: lp.password,
             role,
             socks,
+            tcp,
             addrs,
             seen: HashMap::new(),
             rng,
             n_sent: 0,
+            wire_checked: 0,
+            wire_problems: Vec::new(),
         })
     }
 
@@ -132,17 +200,74 @@ impl World {
         a.to_string()
     }
 
+    /// RFC 5389 / 8445 conformance of one message the agent sent to harness endpoint `to`.
+    fn check_agent_wire(&self, bytes: &[u8], to: &str) -> Vec<String> {
+        use stun::message::Getter;
+        let mut bad = Vec::new();
+        let mut m = Message::new();
+        if let Err(e) = m.unmarshal_binary(bytes) {
+            return vec![format!("reference decoder rejects the message: {e}")];
+        }
+        let n = m.attributes.0.len();
+        if m.attributes.0.last().map(|a| a.typ) != Some(ATTR_FINGERPRINT) {
+            bad.push("FINGERPRINT is not the last attribute".into());
+        } else if let Err(e) = stun::fingerprint::FINGERPRINT.check(&m) {
+            bad.push(format!("FINGERPRINT: {e}"));
+        }
+        if n < 2 || m.attributes.0[n - 2].typ != ATTR_MESSAGE_INTEGRITY {
+            bad.push("MESSAGE-INTEGRITY is not the last attribute before FINGERPRINT".into());
+        }
+        let is_request = m.typ.class == CLASS_REQUEST;
+        // requests are keyed with the receiver's (the peer's) password, responses with the agent's own
+        let key = if is_request { PEER_PWD.as_bytes().to_vec() } else { self.pwd.as_bytes().to_vec() };
+        if let Err(e) = stun::integrity::MessageIntegrity(key).check(&mut m) {
+            bad.push(format!("MESSAGE-INTEGRITY does not verify under the short-term key: {e}"));
+        }
+        if m.typ.method != METHOD_BINDING {
+            bad.push(format!("unexpected method {}", m.typ.method));
+        }
+        if is_request {
+            match m.get(ATTR_USERNAME) {
+                Ok(u) if u == format!("{}:{}", PEER_UFRAG, self.ufrag).as_bytes() => {}
+                other => bad.push(format!("USERNAME is not <peer ufrag>:<own ufrag>: {:?}", other.map(|u| String::from_utf8_lossy(&u).to_string()))),
+            }
+            if m.get(ATTR_PRIORITY).map(|p| p.len()) != Ok(4) {
+                bad.push("PRIORITY missing or not 4 bytes".into());
+            }
+            let (cing, ced) = (m.contains(ATTR_ICE_CONTROLLING), m.contains(ATTR_ICE_CONTROLLED));
+            if cing && ced {
+                bad.push("both ICE-CONTROLLING and ICE-CONTROLLED".into());
+            }
+            if (cing && self.role != IceRole::Controlling) || (ced && self.role != IceRole::Controlled) {
+                bad.push("role attribute contradicts the agent's role".into());
+            }
+            if m.contains(ATTR_USE_CANDIDATE) && self.role != IceRole::Controlling {
+                bad.push("USE-CANDIDATE from a controlled agent".into());
+            }
+        } else if m.typ.class == CLASS_SUCCESS_RESPONSE {
+            let mut x = stun::xoraddr::XorMappedAddress::default();
+            match x.get_from(&m) {
+                Ok(()) if x.ip == self.addrs[to].ip() && x.port == self.addrs[to].port() => {}
+                other => bad.push(format!("XOR-MAPPED-ADDRESS is not the request's source address: {other:?} {}:{}", x.ip, x.port)),
+            }
+        }
+        bad
+    }
+
     /// Read everything queued on the harness sockets: requests the agent sent (learn their
     /// transaction ids) and replies to our own requests (returned by transaction id).
     fn drain(&mut self) -> HashMap<[u8; 12], String> {
         let mut replies = HashMap::new();
-        let mut buf = [0u8; 2048];
         for n in ["P", "X"] {
             loop {
-                let (len, _from) = match self.socks[n].try_recv_from(&mut buf) {
-                    Ok(v) => v,
-                    Err(_) => break,
-                };
+                let Some(pkt) = self.socks.get_mut(n).unwrap().try_next() else { break };
+                let buf = &pkt[..];
+                let len = pkt.len();
+                let problems = self.check_agent_wire(buf, n);
+                self.wire_checked += 1;
+                if !problems.is_empty() && self.wire_problems.len() < 20 {
+                    self.wire_problems.push(json!({"to": n, "len": len, "problems": problems}));
+                }
                 let Ok(d) = StunMessage::decode(&buf[..len]) else { continue };
                 match d.class {
                     StunClass::Request => {
@@ -188,7 +313,14 @@ impl World {
 
     fn project(&mut self) -> Value {
         let (pend, unseen) = self.pend();
-        let rc: BTreeSet<String> = self.agent.remote_candidates().iter().map(|c| self.name_of(c.address)).collect();
+        // (ICE-TCP: the signalled active candidate with the placeholder port 9 is not an address of the model)
+        let rc: BTreeSet<String> = self
+            .agent
+            .remote_candidates()
+            .iter()
+            .filter(|c| !(self.tcp && c.address.port() == 9))
+            .map(|c| self.name_of(c.address))
+            .collect();
         let sel = self
             .agent
             .get_selected_pair()
@@ -235,8 +367,12 @@ impl World {
         let mut spins = 0u32;
         loop {
             if last_send.map(|t| t.elapsed() > Duration::from_secs(3)).unwrap_or(true) {
-                self.socks[from].send_to(bytes, self.agent_addr).await.map_err(|e| e.to_string())?;
-                self.n_sent += 1;
+                let to = self.agent_addr;
+                // (a TCP stream loses nothing: one transmission only)
+                if !(self.tcp && last_send.is_some()) {
+                    self.socks.get_mut(from).unwrap().send(bytes, to).await?;
+                    self.n_sent += 1;
+                }
                 last_send = Some(Instant::now());
             }
             for e in rustrtc::verif::take_events() {
@@ -253,10 +389,16 @@ impl World {
                 }
             }
             if t0.elapsed() > PKT_DEADLINE {
-                return Err(format!("packet from {from} was not handled within {PKT_DEADLINE:?} (state {:?})", self.agent.state()));
+                return Err(format!(
+                    "packet from {from} was not handled within {PKT_DEADLINE:?} (state {:?}, runner finished {}, sent {} datagrams in this scenario)",
+                    self.agent.state(),
+                    self.runner.is_finished(),
+                    self.n_sent
+                ));
             }
+            // a handful of scheduler rounds normally suffices; after that do not burn the (shared) CPU
             spins += 1;
-            if spins % 16 == 0 {
+            if spins > 8 {
                 tokio::time::sleep(Duration::from_millis(1)).await;
             } else {
                 tokio::task::yield_now().await;
@@ -517,7 +659,11 @@ async fn apply(w: &mut World, act: &Value, both: bool, pick: Builder) -> Result<
     let mut out = Applied { reply: vec![], builders: vec![], delivered: vec![] };
     match act["op"].as_str().unwrap() {
         "start" => {
-            w.agent.add_remote_candidate(IceCandidate::host(w.addrs["P"], 1));
+            if w.tcp {
+                w.agent.add_remote_candidate(IceCandidate::tcp("127.0.0.1:9".parse().unwrap(), 1, "active"));
+            } else {
+                w.agent.add_remote_candidate(IceCandidate::host(w.addrs["P"], 1));
+            }
             w.agent
                 .start(IceParameters::new(PEER_UFRAG, PEER_PWD))
                 .map_err(|e| e.to_string())?;
@@ -597,6 +743,15 @@ struct Ctx {
 }
 
 impl Ctx {
+    /// move the wire-conformance results of this agent into the output
+    fn flush_wire(&mut self, out: &mut Vec<Value>, stats: &mut BTreeMap<String, u64>) {
+        *stats.entry("wire_checked".into()).or_default() += self.w.wire_checked;
+        self.w.wire_checked = 0;
+        for p in self.w.wire_problems.drain(..) {
+            *stats.entry("wire_problems".into()).or_default() += 1;
+            out.push(json!({"type": "wire", "rule": "AgentWire", "detail": p}));
+        }
+    }
     fn build(cfg: &Value, pre: &[Value], from: &Value, rng: &Rng) -> Result<Ctx, Value> {
         let rt = tokio::runtime::Builder::new_current_thread().enable_all().build().unwrap();
         let w = rt.block_on(build_world(cfg, pre, from, rng))?;
@@ -692,6 +847,7 @@ fn run_group(edges: &[Value], out: &mut Vec<Value>, rng: &mut Rng, stats: &mut B
         }
         let c = world.as_mut().unwrap();
         let before = c.project();
+        let _ = &before;
         let pick = if rng.below(2) == 0 { Builder::Repo } else { Builder::StunCrate };
         // an input that leaves the whole model state alone is sent twice (both encoders) and the agent is kept
         let pure = e["pure"].as_bool().unwrap_or(inert);
@@ -700,12 +856,22 @@ fn run_group(edges: &[Value], out: &mut Vec<Value>, rng: &mut Rng, stats: &mut B
             Ok(a) => a,
             Err(err) => {
                 // an outstanding transaction the model expects is not there: legitimate-path drift
-                // (e.g. a keepalive re-routed the peer); only an unhandled packet is a machinery failure
-                let kind = if err.starts_with("no outstanding transaction") { "drift" } else { "toolerror" };
+                // (e.g. a keepalive re-routed the peer); an unhandled packet is a machinery failure - but only
+                // if it repeats: the first occurrence per process is reported as drift and the scenario goes on
+                // with a fresh agent
+                let unhandled = err.starts_with("packet from");
+                if unhandled {
+                    *stats.entry("unhandled_packets".into()).or_default() += 1;
+                }
+                let kind = if err.starts_with("no outstanding transaction") || (unhandled && stats["unhandled_packets"] <= 2) {
+                    "drift"
+                } else {
+                    "toolerror"
+                };
                 out.push(json!({"type": kind, "detail": err, "why": {"why": "act-not-applicable", "detail": err}, "rule": "EXT",
                     "cfg": cfg, "pre": pre, "act": e["act"], "case": e}));
                 *stats.entry("skipped_edges".into()).or_default() += 1;
-                world.take().unwrap().stop();
+                { let mut c = world.take().unwrap(); c.flush_wire(out, stats); c.stop(); }
                 continue;
             }
         };
@@ -738,7 +904,7 @@ fn run_group(edges: &[Value], out: &mut Vec<Value>, rng: &mut Rng, stats: &mut B
                     "rule": if hit.is_empty() { "EXT".to_string() } else { rule.clone() },
                     "sig": sig, "changed": changed, "why": {"why": "inert-step-moved"},
                     "before": before, "after": after, "reply": applied.reply, "builders": applied.builders, "case": e}));
-                world.take().unwrap().stop(); // the agent is no longer in the group's pre-state
+                { let mut c = world.take().unwrap(); c.flush_wire(out, stats); c.stop(); } // the agent is no longer in the group's pre-state
                 continue;
             }
             // beyond the property: an unauthenticated request should not be answered with success
@@ -747,7 +913,7 @@ fn run_group(edges: &[Value], out: &mut Vec<Value>, rng: &mut Rng, stats: &mut B
             }
             if !pure {
                 // the input moved state outside the projection (demux routing): not reusable
-                world.take().unwrap().stop();
+                { let mut c = world.take().unwrap(); c.flush_wire(out, stats); c.stop(); }
             }
         } else {
             // a step the property leaves free: compared with the model under EXT only
@@ -758,10 +924,11 @@ fn run_group(edges: &[Value], out: &mut Vec<Value>, rng: &mut Rng, stats: &mut B
                 out.push(json!({"type": "drift", "why": {"why": "post-state", "expected": want, "observed": after},
                     "cfg": cfg, "pre": pre, "act": e["act"], "rule": "EXT"}));
             }
-            world.take().unwrap().stop();
+            { let mut c = world.take().unwrap(); c.flush_wire(out, stats); c.stop(); }
         }
     }
-    if let Some(w) = world.take() {
+    if let Some(mut w) = world.take() {
+        w.flush_wire(out, stats);
         w.stop();
     }
 }
@@ -779,29 +946,71 @@ fn main() {
         .unwrap_or((0, 1));
     quiet_panics();
     rustrtc::verif::set_enabled(true);
-    let edges = read_ndjson(&args[1]);
-    // group by (cfg, pre); keep TLC's order inside a group
-    let mut groups: BTreeMap<String, Vec<Value>> = BTreeMap::new();
-    for e in edges {
-        let k = format!("{}|{}", e["cfg"], e["pre"]);
-        groups.entry(k).or_default().push(e);
+    // Two streaming passes keep memory small (a thorough edge file has several hundred thousand lines and each
+    // worker process only needs its own groups): pass 1 finds the groups (cfg, pre) and their order - shortest
+    // histories first, so that a broken prefix is discovered once, on its shortest occurrence; pass 2 loads the
+    // groups of this shard, with the history stored once per group.
+    fn fnv64(s: &str) -> u64 {
+        let mut h: u64 = 0xcbf29ce484222325;
+        for b in s.as_bytes() {
+            h ^= *b as u64;
+            h = h.wrapping_mul(0x100000001b3);
+        }
+        h
     }
+    fn for_each_line(path: &str, mut f: impl FnMut(Value)) {
+        use std::io::BufRead;
+        let file = std::fs::File::open(path).unwrap_or_else(|e| panic!("open {path}: {e}"));
+        for line in std::io::BufReader::new(file).lines() {
+            let line = line.expect("read");
+            if line.trim().is_empty() {
+                continue;
+            }
+            f(serde_json::from_str(&line).unwrap_or_else(|e| panic!("{path}: bad json: {e}")));
+        }
+    }
+    let mut index: HashMap<u64, (usize, String)> = HashMap::new(); // key hash -> (history length, key)
+    for_each_line(&args[1], |e| {
+        let k = format!("{}|{}", e["cfg"], e["pre"]);
+        let n = e["pre"].as_array().map(|a| a.len()).unwrap_or(0);
+        index.entry(fnv64(&k)).or_insert((n, k));
+    });
+    let mut order: Vec<(usize, String, u64)> = index.into_iter().map(|(h, (n, k))| (n, k, h)).collect();
+    order.sort();
+    let mine: HashMap<u64, usize> = order
+        .iter()
+        .enumerate()
+        .filter(|(gi, _)| *gi as u64 % sn == si)
+        .map(|(gi, (_, _, h))| (*h, gi))
+        .collect();
+    drop(order);
+    let mut groups: BTreeMap<usize, Vec<Value>> = BTreeMap::new();
+    for_each_line(&args[1], |mut e| {
+        let k = format!("{}|{}", e["cfg"], e["pre"]);
+        if let Some(gi) = mine.get(&fnv64(&k)) {
+            let g = groups.entry(*gi).or_default();
+            if !g.is_empty() {
+                // the history is kept on the group's first edge only
+                e["pre"] = Value::Null;
+            }
+            g.push(e);
+        }
+    });
     let mut out = Vec::new();
     let mut stats: BTreeMap<String, u64> = BTreeMap::new();
     let mut rng = Rng::from_env();
     let t0 = Instant::now();
     let mut ngroups = 0u64;
     let mut failed = Failed::default();
-    // shortest histories first, so that a broken prefix is discovered once, on its shortest occurrence
-    let mut order: Vec<(&String, &Vec<Value>)> = groups.iter().collect();
-    order.sort_by_key(|(k, es)| (es[0]["pre"].as_array().map(|a| a.len()).unwrap_or(0), (*k).clone()));
-    for (gi, (_k, es)) in order.into_iter().enumerate() {
-        if gi as u64 % sn != si {
-            continue;
-        }
+    for (gi, es) in groups.iter() {
+        let gi = *gi;
         ngroups += 1;
         // inert edges first (they share one agent), then the state-changing ones (one agent each)
+        let pre0 = es[0]["pre"].clone();
         let mut es = es.clone();
+        for e in es.iter_mut() {
+            e["pre"] = pre0.clone();
+        }
         es.sort_by_key(|e| (!e["pure"].as_bool().unwrap_or(e["inert"].as_bool().unwrap()), !e["inert"].as_bool().unwrap()));
         let mut grng = Rng(rng.next() ^ gi as u64);
         let g0 = Instant::now();
